@@ -75,6 +75,10 @@ CHECKS["C17"] = dict(technique="coverage-guided fuzzing (libFuzzer + ASan + UBSa
                      note="Trusted: sanitizer detection of the access classes; 32-bit-word configuration on a 64-bit host; fuzz campaigns are pinned only approximately by -seed (saved artifacts are the reproducible unit).",
                      ref="DESIGN.md section 4, C17")
 
+CHECKS["C19"] = dict(technique="exhaustive enumeration of layout static_asserts over five target ABIs plus generated differential testing of every extern-C function against the C++ operation it forwards to (byte-identical outputs, equal random streams), whole-history transcripts for the schemes",
+                     note="Trusted: clang's layout computation for the cross targets (compile-only); the Go layer cannot be built here.",
+                     ref="DESIGN.md section 4, C19")
+
 PENDING = {}
 
 
